@@ -32,6 +32,136 @@ theorem mem_invMapOf_iff {ds : List (Member V)} {k : Key} {d : Name} :
     d ∈ invMapOf ds k ↔ ∃ m, lookupMember ds d = some m ∧ k ∈ m.invBy :=
   mem_invMapOf_iff'
 
+/-! ## Which declaration of a redeclared name counts (`bootstrap`: `metadata.attrs` along the hierarchy)
+
+`T.code.invMap` is computed from `effOwn T.mro`: the effective `metadata.attrs` entries (`effSpec`)
+followed by the binding members of `owner.mro()`. -/
+
+/-- A managed name is invalidated by exactly the keys of its entry in `metadata.attrs` (members
+of the same name further down the MRO are shadowed: `seen_attributes`). -/
+theorem managed_invMap_iff (T : Tbl V) {d : Name} {sp : Eff V}
+    (h : effSpec false (ownerMro T.mro) d = some sp) (k : Key) :
+    d ∈ T.code.invMap k ↔ k ∈ sp.invBy := by
+  simp only [Tbl.code, Tbl.resolveWith]
+  rw [mem_invMapOf_iff', lookupMember_effOwn_managed h]
+  simp [effMember]
+
+/-- A name that is not managed is invalidated by the keys of the first member of `owner.mro()`
+that binds it. -/
+theorem unmanaged_invMap_iff (T : Tbl V) {d : Name} (h : effSpec false (ownerMro T.mro) d = none) (k : Key) :
+    d ∈ T.code.invMap k ↔ ∃ m, clsVal (declsOf (ownerMro T.mro)) d = some m ∧ k ∈ m.invBy := by
+  simp only [Tbl.code, Tbl.resolveWith]
+  rw [mem_invMapOf_iff', lookupMember_effOwn_unmanaged h]
+
+/-- **The instance's own class has the last word.** A property that the body of the (spec) class
+of the instance declares with dependencies of its own is invalidated by exactly those — whether
+the name is annotated there or not, whether an ancestor already managed it or not, and whatever
+`invalidated_by` the ancestors declared for it. -/
+theorem own_property_declaration_wins (T : Tbl V) (c : ClassDecl V) (rest : List (ClassDecl V))
+    (hT : T.mro = c :: rest) (hc : c.spec = true) {d : Name} {m : Member V}
+    (hl : lookupMember c.members d = some m) {ch o a : Bool} (hk : m.kind = .prop ch o a)
+    (hne : m.invBy ≠ []) (k : Key) :
+    d ∈ T.code.invMap k ↔ k ∈ m.invBy := by
+  have hown : ownerMro T.mro = c :: rest := by simp [ownerMro, hT, hc]
+  have hempty : m.invBy.isEmpty = false := by
+    cases hi : m.invBy with
+    | nil => exact absurd hi hne
+    | cons _ _ => rfl
+  have hann : m.annotated = a := by simp [Member.annotated, hk]
+  have hbind : m.binds = true := by simp [Member.binds, hk]
+  have hspec : effSpec false (c :: rest) d =
+      if a then some (scratchSpec m (declsOf rest)) else (effSpec false rest d).map (overrideSpec m) := by
+    conv => lhs; unfold effSpec
+    simp [hc, hl, hann]
+  cases ha : a with
+  | true =>
+    have h1 : effSpec false (ownerMro T.mro) d = some ⟨.prop ch o true, m.invBy⟩ := by
+      rw [hown, hspec, ha]; simp [scratchSpec, hk]
+    exact managed_invMap_iff T h1 k
+  | false =>
+    cases hin : effSpec false rest d with
+    | some sp =>
+      have h1 : effSpec false (ownerMro T.mro) d = some ⟨.prop ch o true, m.invBy⟩ := by
+        rw [hown, hspec, ha, hin]; simp [overrideSpec, hk, ownOr, hempty]
+      exact managed_invMap_iff T h1 k
+    | none =>
+      have h1 : effSpec false (ownerMro T.mro) d = none := by
+        rw [hown, hspec, ha, hin]; rfl
+      rw [unmanaged_invMap_iff T h1 k, hown, declsOf_cons]
+      have hfind : clsVal (c.members ++ declsOf rest) d = some m := by
+        have hl' : c.members.find? (fun x => x.name == d) = some m := hl
+        unfold clsVal
+        rw [List.find?_append, find?_and (fun x : Member V => x.name == d) (fun x => x.binds) c.members m hl' hbind]
+        rfl
+      rw [hfind]
+      simp
+
+/-- … and a property that declares no dependencies of its own, put over an inherited managed
+attribute without re-annotating it, keeps the inherited `invalidated_by`. -/
+theorem silent_property_inherits (T : Tbl V) (c : ClassDecl V) (rest : List (ClassDecl V))
+    (hT : T.mro = c :: rest) (hc : c.spec = true) {d : Name} {m : Member V}
+    (hl : lookupMember c.members d = some m) {ch o : Bool} (hk : m.kind = .prop ch o false)
+    (he : m.invBy = []) {sp : Eff V} (hin : effSpec false rest d = some sp) (k : Key) :
+    d ∈ T.code.invMap k ↔ k ∈ sp.invBy := by
+  have hown : ownerMro T.mro = c :: rest := by simp [ownerMro, hT, hc]
+  have h1 : effSpec false (ownerMro T.mro) d = some ⟨.prop ch o true, sp.invBy⟩ := by
+    rw [hown]
+    conv => lhs; unfold effSpec
+    simp [hc, hl, Member.annotated, hk, hin, overrideSpec, ownOr, he]
+  exact managed_invMap_iff T h1 k
+
+/-- Re-defaulting an inherited managed attribute (`n = v` in the subclass body, no annotation)
+changes the default and keeps the inherited `invalidated_by`. -/
+theorem redefault_keeps_invalidated_by (T : Tbl V) (c : ClassDecl V) (rest : List (ClassDecl V))
+    (hT : T.mro = c :: rest) (hc : c.spec = true) {d : Name} {m : Member V}
+    (hl : lookupMember c.members d = some m) {v : V} (hk : m.kind = .plain (some v))
+    {sp : Eff V} (hin : effSpec false rest d = some sp) (k : Key) :
+    (d ∈ T.code.invMap k ↔ k ∈ sp.invBy) ∧ dfltOf T.code d = some v := by
+  have hown : ownerMro T.mro = c :: rest := by simp [ownerMro, hT, hc]
+  have h1 : effSpec false (ownerMro T.mro) d = some ⟨.attr (some v), sp.invBy⟩ := by
+    rw [hown]
+    conv => lhs; unfold effSpec
+    simp [hc, hl, Member.annotated, hk, hin, overrideSpec]
+  refine ⟨managed_invMap_iff T h1 k, ?_⟩
+  have hall : effAll false T.mro = effOwn false T.mro := by
+    simp [effAll, bindingDecls, declsOf, hT, hc]
+  unfold dfltOf
+  simp only [Tbl.code, Tbl.resolveWith, h1, hall, lookupMember_effOwn_managed h1]
+  simp [effMember]
+
+/-- `n = Attr(default=…, invalidated_by=…)` over an inherited managed attribute is a
+redeclaration: nothing of the inherited `invalidated_by` survives, even when it declares none. -/
+theorem redeclared_attr_wins (T : Tbl V) (c : ClassDecl V) (rest : List (ClassDecl V))
+    (hT : T.mro = c :: rest) (hc : c.spec = true) {d : Name} {m : Member V}
+    (hl : lookupMember c.members d = some m) {dv : Option V} (hk : m.kind = .attr dv)
+    (hf : m.form = .bareAttr) {sp : Eff V} (hin : effSpec false rest d = some sp) (k : Key) :
+    d ∈ T.code.invMap k ↔ k ∈ m.invBy := by
+  have hown : ownerMro T.mro = c :: rest := by simp [ownerMro, hT, hc]
+  have h1 : effSpec false (ownerMro T.mro) d = some ⟨.attr dv, m.invBy⟩ := by
+    rw [hown]
+    conv => lhs; unfold effSpec
+    simp [hc, hl, Member.annotated, hk, hf, hin, overrideSpec]
+  exact managed_invMap_iff T h1 k
+
+/-- A class (spec or undecorated) whose body does not mention the name passes the inherited entry
+on unchanged: inheritance of any depth. -/
+theorem unmentioned_inherits (h : Bool) (c : ClassDecl V) (rest : List (ClassDecl V)) (d : Name)
+    (hl : lookupMember c.members d = none) : effSpec h (c :: rest) d = effSpec h rest d := by
+  conv => lhs; unfold effSpec
+  simp [hl]
+
+/-- An undecorated class in the hierarchy that puts a property over a managed name: instances see
+the property (kind, no default), but the library's invalidation map keeps the INHERITED keys —
+the property's own `invalidated_by` is ignored (`honour = false`), which is what
+KF-C11-plain-middle-override is about; the property text asks for `honour = true`. -/
+theorem plain_class_property_over_managed (h : Bool) (c : ClassDecl V) (rest : List (ClassDecl V))
+    (hc : c.spec = false) {d : Name} {m : Member V} (hl : lookupMember c.members d = some m)
+    {ch o a : Bool} (hk : m.kind = .prop ch o a) {sp : Eff V} (hin : effSpec h rest d = some sp) :
+    effSpec h (c :: rest) d =
+      some ⟨.prop ch o true, if h then ownOr m.invBy sp.invBy else sp.invBy⟩ := by
+  conv => lhs; unfold effSpec
+  simp [hl, hc, hin, plainOverride, hk]
+
 /-! ## `invalidate_attrs` terminates and clears exactly the transitive dependants -/
 
 /-- The fuel of the model is never exhausted on a well-formed table (the library's recursion
@@ -191,35 +321,51 @@ sees the same dependants as a scan of the whole MRO. -/
 def OwnerCoversDependants (T : Tbl V) : Prop :=
   ∀ k d, d ∈ T.full.invMap k ↔ d ∈ T.code.invMap k
 
-/-- Holds in particular when the instance's class is itself a spec class. -/
+/-- "The declarations of undecorated classes inside the owner's hierarchy make no difference":
+no such class puts a property with dependencies of its own over a managed name. -/
+def PlainClassesSilent (T : Tbl V) : Prop :=
+  ∀ n, effSpec true (ownerMro T.mro) n = effSpec false (ownerMro T.mro) n
+
+/-- … which holds in particular when the undecorated classes declare no `invalidated_by` at all. -/
+theorem plainClassesSilent_of_no_invBy (T : Tbl V)
+    (h : ∀ c ∈ ownerMro T.mro, c.spec = false → ∀ m ∈ c.members, m.invBy = []) : PlainClassesSilent T :=
+  effSpec_honour_irrelevant _ h
+
+theorem effOwn_congr (T : Tbl V) (hs : PlainClassesSilent T) : effOwn true T.mro = effOwn false T.mro := by
+  unfold effOwn effManaged
+  congr 2
+  funext n
+  rw [hs n]
+
+/-- Holds when the instance's class is itself a spec class — PROVIDED no undecorated class between
+the spec classes overrides a managed name with dependencies of its own (`PlainClassesSilent`; without
+it the statement is false: `middle_override_not_covered`). -/
 theorem owner_covers_of_spec_head (T : Tbl V) (c : ClassDecl V) (cs : List (ClassDecl V))
-    (h : T.mro = c :: cs) (hc : c.spec = true) : OwnerCoversDependants T := by
+    (h : T.mro = c :: cs) (hc : c.spec = true) (hs : PlainClassesSilent T) : OwnerCoversDependants T := by
   intro k d
-  simp [Tbl.full, Tbl.code, Tbl.resolveWith, ownerMro, h, hc, List.dropWhile]
+  have : effAll true T.mro = effOwn false T.mro := by
+    rw [← effOwn_congr T hs]
+    simp [effAll, bindingDecls, declsOf, h, hc]
+  simp only [Tbl.full, Tbl.code, Tbl.resolveWith, this]
 
 /-- … and when the undecorated subclasses in front of the owner declare no `invalidated_by`
 and do not redeclare a name of the owner's hierarchy. -/
-theorem owner_covers_of_silent_plain (T : Tbl V)
+theorem owner_covers_of_silent_plain (T : Tbl V) (hs : PlainClassesSilent T)
     (h : ∀ m ∈ declsOf (T.mro.takeWhile (fun c => !c.spec)),
       m.invBy = [] ∧ lookupMember (declsOf (ownerMro T.mro)) m.name = none) :
     OwnerCoversDependants T := by
   intro k d
   simp only [Tbl.full, Tbl.code, Tbl.resolveWith]
   rw [mem_invMapOf_iff', mem_invMapOf_iff']
-  have hsplit : declsOf T.mro = declsOf (T.mro.takeWhile (fun c => !c.spec)) ++ declsOf (ownerMro T.mro) := by
-    unfold declsOf ownerMro
-    rw [← List.flatMap_append, List.takeWhile_append_dropWhile]
-  rw [hsplit]
-  unfold lookupMember
-  rw [List.find?_append]
-  cases hpre : List.find? (fun m => m.name == d) (declsOf (T.mro.takeWhile (fun c => !c.spec))) with
+  unfold effAll
+  rw [effOwn_congr T hs, lookupMember_append]
+  cases hpre : lookupMember (bindingDecls (T.mro.takeWhile (fun c => !c.spec))) d with
   | none => simp
   | some m =>
-    obtain ⟨hmem, hname⟩ := lookupMember_some (ds := declsOf (T.mro.takeWhile (fun c => !c.spec))) hpre
-    obtain ⟨hinv, hno⟩ := h m hmem
+    obtain ⟨hmem, hname⟩ := lookupMember_some hpre
+    obtain ⟨hinv, hno⟩ := h m (List.mem_filter.1 hmem).1
     rw [hname] at hno
-    unfold lookupMember at hno
-    simp [hinv, hno]
+    simp [hinv, lookupMember_effOwn_none false hno]
 
 /-- The property for every table in which the owner's scan covers all declared dependants. -/
 theorem fresh_reachable_partial (T : Tbl V) (hcov : OwnerCoversDependants T)
@@ -227,7 +373,7 @@ theorem fresh_reachable_partial (T : Tbl V) (hcov : OwnerCoversDependants T)
   have hr : ∀ a d, Reach T.full a d ↔ Reach T.code a d := fun a d => reach_congr hcov
   have hdf : ∀ n, dfltOf T.full n = dfltOf T.code n := fun n => rfl
   have wf' : WF T.code :=
-    ⟨resolve_closed T _ (ownerMro_sub T.mro),
+    ⟨resolve_closed T _ (effOwn_names' _ T.mro),
      fun z hz hrz => wf.acyc z hz ((hr z z).2 hrz),
      resolve_managedComplete T _⟩
   have gl' : GetterLocal T.code := by
@@ -252,6 +398,38 @@ scan, not the invalidation algorithm. -/
 theorem witness_full_ok :
     (gnext witnessT.full (gnext witnessT.full ⟨dset Dict.empty 0 (Tag.user, 1), fun _ => 0, 0⟩
       (.read 1) true true) (.setattr 0 5) true true).d 1 = none := by
+  decide
+
+/-! ## Open finding KF-C11-plain-middle-override
+
+An undecorated class BETWEEN two spec classes that puts a cached property over a managed
+attribute: the instance's class is a spec class, yet the property's own `invalidated_by` never
+reaches the map (`plain_class_property_over_managed`). `witness2T`, `witness2G` in `Proofs/C11.lean`. -/
+
+/-- `owner_covers_of_spec_head` needs `PlainClassesSilent`: there is a table whose head is a spec
+class, well-formed and getter-local on `Tbl.full`, with a history of the library (`Tbl.code`) that
+is not fresh — `x = S2(); x.n; x.b = 5` leaves `n` stale. -/
+theorem middle_override_not_covered :
+    ∃ T : Tbl Int, (∃ c cs, T.mro = c :: cs ∧ c.spec = true) ∧ WF T.full ∧ GetterLocal T.full ∧
+      ∃ g, Lineage T.code g ∧ ¬ Fresh T.full g := by
+  refine ⟨witness2T, ⟨_, _, rfl, rfl⟩, witness2_wf, witness2_getterLocal, witness2G, witness2_lineage, ?_⟩
+  intro hf
+  have := hf.cache 2 20 witness2_stale.1
+  rw [witness2_stale.2] at this
+  exact absurd this (by decide)
+
+/-- The library's map of the witness lists `n` under `a` only (the inherited key); the table the
+property asks for lists it under `b` (its own declaration). -/
+theorem middle_override_maps :
+    (2 ∈ witness2T.code.invMap (.nm 0) ∧ 2 ∉ witness2T.code.invMap (.nm 1)) ∧
+    (2 ∉ witness2T.full.invMap (.nm 0) ∧ 2 ∈ witness2T.full.invMap (.nm 1)) := by
+  decide
+
+/-- On `Tbl.full` the same history is fresh: the defect is the map, not the algorithm. -/
+theorem middle_override_full_ok :
+    (gnext witness2T.full (gnext witness2T.full
+      ⟨dset (dset Dict.empty 0 (Tag.user, 1)) 1 (Tag.user, 2), fun _ => 0, 0⟩
+      (.read 2) true true) (.setattr 1 5) true true).d 2 = none := by
   decide
 
 /-! ## Non-vacuity: a non-trivial table satisfying every hypothesis -/
@@ -286,7 +464,36 @@ example :
   intro s0
   exact ⟨rfl, by decide⟩
 
+/-! `ovT`: `class Order` (spec): `net: int = 0` (0), `shipping: int = 0` (1), annotated cached `total` (2,
+`invalidated_by=['net']`), `note: int = Attr(default=7, invalidated_by=['net'])` (3), un-annotated
+`weight` property without dependencies (4); `class ShippedOrder(Order)` (spec) overrides, without
+annotating: `total` with `invalidated_by=['net', 'shipping']`, `note = 9`, and `weight` stays. -/
+def ovT : Tbl Int :=
+  { mro := [⟨true, [⟨2, .prop true true false, [.nm 0, .nm 1], .std⟩, ⟨3, .plain (some 9), [], .std⟩]⟩,
+            ⟨true, [⟨0, .attr (some 0), [], .std⟩, ⟨1, .attr (some 0), [], .std⟩,
+                     ⟨2, .prop true true true, [.nm 0], .std⟩, ⟨3, .attr (some 7), [.nm 0], .viaAttr⟩,
+                     ⟨4, .prop false true false, [], .std⟩]⟩]
+    getter := fun p f => if p = 2 then (f 0).getD 0 + (f 1).getD 0 else 1
+    okType := fun _ _ => true
+    ctor0 := fun _ => some 0 }
+
+/-- `own_property_declaration_wins` / `redefault_keeps_invalidated_by` are not vacuous: on `ovT` the
+subclass's `total` is invalidated by `shipping` (which only the subclass lists), `note` keeps
+`invalidated_by=['net']` with the new default 9, and the history `s.total; s.shipping = 7` leaves the
+slot of `total` empty, so that the next read recomputes. -/
+example : (∀ k, 2 ∈ ovT.code.invMap k ↔ k ∈ [Key.nm 0, Key.nm 1]) ∧
+    ((∀ k, 3 ∈ ovT.code.invMap k ↔ k ∈ [Key.nm 0]) ∧ dfltOf ovT.code 3 = some 9) ∧
+    (gnext ovT.code (gnext ovT.code ⟨dset (dset (dset Dict.empty 0 (Tag.user, 0)) 1 (Tag.user, 0)) 3 (Tag.user, 9),
+      fun _ => 0, 0⟩ (.read 2) true true) (.setattr 1 7) true true).d 2 = none :=
+  ⟨fun k => own_property_declaration_wins ovT _ _ rfl rfl (d := 2) rfl rfl (by simp) k,
+   ⟨fun k => (redefault_keeps_invalidated_by ovT _ _ rfl rfl (d := 3) rfl rfl
+      (sp := ⟨.attr (some 7), [.nm 0]⟩) rfl k).1,
+    (redefault_keeps_invalidated_by ovT _ _ rfl rfl (d := 3) rfl rfl
+      (sp := ⟨.attr (some 7), [.nm 0]⟩) rfl Key.star).2⟩,
+   by decide⟩
+
 /-- The hypotheses of `fresh_reachable_partial` hold for a table with a spec subclass. -/
-example : OwnerCoversDependants exT := owner_covers_of_spec_head exT _ _ rfl rfl
+example : OwnerCoversDependants exT :=
+  owner_covers_of_spec_head exT _ _ rfl rfl (plainClassesSilent_of_no_invBy exT (by simp [exT, ownerMro]))
 
 end SpecVerif.Props.C11
